@@ -38,10 +38,13 @@ Init == /\ pc = "dl_check" /\ wname = "" /\ net = 0 /\ faults = 0 /\ ret = <<>>
 DlCheck == /\ pc = "dl_check"
            /\ pc' = IF fs["final"].exists THEN "dl_done" ELSE "dl_open"
            /\ UNCHANGED <<fs, wname, net, faults, ret>>
-DlOpen(n) == /\ pc = "dl_open" /\ n \in DOMAIN fs
-             /\ fs' = [fs EXCEPT ![n] = Empty] /\ wname' = n /\ pc' = "dl_get"
+\* opening the output file and issuing the request may happen in either order
+DlOpen(n) == /\ pc \in {"dl_open", "dl_open_got"} /\ n \in DOMAIN fs
+             /\ fs' = [fs EXCEPT ![n] = Empty] /\ wname' = n
+             /\ pc' = IF pc = "dl_open" THEN "dl_get" ELSE "dl_write"
              /\ UNCHANGED <<net, faults, ret>>
-DlGet == /\ pc = "dl_get" /\ net' = net + 1 /\ pc' = "dl_write"
+DlGet == /\ pc \in {"dl_get", "dl_open"} /\ net' = net + 1
+         /\ pc' = IF pc = "dl_get" THEN "dl_write" ELSE "dl_open_got"
          /\ UNCHANGED <<fs, wname, faults, ret>>
 \* one block lands (k units); k is what is left when less than a block remains
 DlWrite(k) == /\ pc = "dl_write" /\ k > 0 /\ fs[wname].size + k <= Total
@@ -90,7 +93,7 @@ Fault == /\ pc \notin {"done", "raising"} /\ faults < MaxFaults
          /\ faults' = faults + 1 /\ pc' = "dl_check" /\ wname' = "" /\ ret' = <<>>
          /\ UNCHANGED <<fs, net>>
 \* an exception (network failure, I/O error) unwinds through the `with` block: the file being written is closed as is
-Abandon == /\ pc \in {"dl_get", "dl_write", "dc_copy"} /\ faults < MaxFaults
+Abandon == /\ pc \in {"dl_get", "dl_write", "dc_copy"} /\ wname # "" /\ faults < MaxFaults
            /\ faults' = faults + 1 /\ pc' = "raising"
            /\ UNCHANGED <<fs, wname, net, ret>>
 \* ... and reaches the caller, who starts over
